@@ -31,6 +31,50 @@ def quit_schedule(units, ui, j, later=0):
     return 'm' * (steps - 1) + 'kk' + 'm' * (sum(len(u[2]) + 2 for u in units) + 5)
 
 
+def big_markov_spec():
+    """a ruleset whose first pre-terminal is a Markov level of 87,376 strings (4 letters, lengths 2..8, every n-gram at level 0, every
+    length at level 1), followed by a plain structure of 10,000 guesses: a `q` typed while guesses flow lands inside the level"""
+    letters = ['a', 'b', 'c', 'd']
+    om = {'ngram': 2, 'alphabet': letters, 'ip': [[0, x] for x in letters], 'ep': [[0, x] for x in letters],
+          'cp': [[0, x + y] for x in letters for y in letters], 'ln': [10] + [1] * 7, 'keyspace': [[1, 87376]]}
+    words = ['%c%c%c' % (a, b, c) for a in 'abcde' for b in 'xy' for c in 'mnopq']
+    d3 = [['%03d' % k, repr(0.01)] for k in range(100)]
+    return {'terminals': {'A3': [[w, repr(1 / 50)] for w in words], 'C3': [['LLL', '0.7'], ['ULL', '0.3']], 'D3': d3},
+            'grammar': [['M', '0.6'], ['A3D3', '0.4']], 'omen_prob': [['1', '0.5']], 'prince': [], 'encoding': 'utf-8', 'omen': om}
+
+
+def big_plain_spec():
+    """20 pre-terminals of 5,000 guesses each with pairwise different probabilities (no Markov structure)"""
+    words = ['%c%c%c' % (a, b, c) for a in 'abcde' for b in 'xy' for c in 'mnopq']
+    d3 = []
+    for g, p_ in enumerate(['0.19', '0.17', '0.15', '0.13', '0.11', '0.09', '0.07', '0.05', '0.03', '0.01']):
+        d3 += [['%03d' % (g * 100 + k), repr(float(p_) / 100)] for k in range(100)]
+    return {'terminals': {'A3': [[w, repr(1 / 50)] for w in words], 'C3': [['LLL', '0.6'], ['ULL', '0.4']], 'D3': d3},
+            'grammar': [['A3D3', '1.0']], 'omen_prob': [], 'prince': [], 'encoding': 'utf-8'}
+
+
+def cli_interleaved_sessions(prop, tag, spec):
+    """the program itself: session `<tag>.ntlm` is quit by a `q` typed while guesses flow (wherever that lands), a second session
+    `<tag>.sha1` - a name that differs only after the last dot - is started and ended, then the first is resumed with --load: what the
+    two runs of the first session printed, one after the other, must be the uninterrupted stream"""
+    name = f"{tag}rules"
+    common.install_ruleset(spec, name)
+    full, _, _ = common.run_cli('pcfg_guesser.py', ['-r', name, '-s', f"{tag}.full"], stdin='devnull', timeout=300)
+    a1, e1, _ = common.run_cli_quit('pcfg_guesser.py', ['-r', name, '-s', f"{tag}.ntlm"], timeout=300)
+    common.run_cli('pcfg_guesser.py', ['-r', name, '-s', f"{tag}.sha1", '--limit', '10'], stdin='devnull', timeout=300)
+    a2, e2, _ = common.run_cli('pcfg_guesser.py', ['-s', f"{tag}.ntlm", '--load'], stdin='devnull', timeout=300)
+    wit = {'cli_history': 'quit / other session with a name differing after the last dot / resume', 'spec_kind': tag}
+    out = []
+    nfull, n1, n2 = full.count(b'\n'), a1.count(b'\n'), a2.count(b'\n')
+    info = {'full': nfull, 'first_session': n1, 'resumed': n2, 'quit_saved': b'Saving Session Info' in e1}
+    if not full or a1 != full[:len(a1)]:
+        out.append({'property': prop, 'kind': 'first-session-output', 'got': n1, 'want': nfull, 'witness': wit})
+    elif b'Saving Session Info' in e1 and a1 + a2 != full:
+        out.append({'property': prop, 'kind': 'omen-replay' if n1 + n2 > nfull else 'lost-after-resume', 'emitted': n1 + n2, 'full': nfull,
+                    'sessions': [n1, n2], 'witness': wit})
+    return out, info
+
+
 def run(ctx):
     rng = ctx.rng
     common.use_impl()
@@ -169,6 +213,10 @@ def run(ctx):
                         viol.append({'property': 'C15', 'kind': 'quit-in-last-markov-unit' if lastm else ('omen-replay' if len(tot) > len(full) else 'lost-after-resume'),
                                      'emitted': len(tot), 'full': len(full), 'sessions': [len(o) for o in hs], 'history': 'second q during the end-of-level search',
                                      'witness': dict(wit, history='end-of-level-search')})
+    vs_cli, info_cli = cli_interleaved_sessions('C15', 'c15audit', big_markov_spec())
+    viol += vs_cli
+    cases += 1
+    dist['cli_interleaved'] = info_cli
     if ctx.driver_ok:
         # `ss.run1` lines carry (pos, opt, omn) of the files the session was loaded from
         fixed = []
@@ -210,6 +258,9 @@ def run(ctx):
 
 def replay(ctx, payload):
     w = payload.get('violation', {}).get('witness') or {}
+    if 'cli_history' in w:
+        common.use_impl()
+        return cli_interleaved_sessions('C15', 'c15audit', big_markov_spec())[0]
     if 'spec' not in w:
         return []
     common.use_impl()
